@@ -151,9 +151,14 @@ class Report:
         # vacuity: the registered obligation count must be reproduced
         locked_n = len(self.lock)
         if n == 0: self.errors.append('no obligations generated (vacuous run)')
-        missing = [k for k in self.lock if k not in {o.id for o in self.obs}]
-        if missing and not os.environ.get('VERIF_UPDATE_LOCK'):
-            self.errors.append(f'{len(missing)} locked obligations were not regenerated, e.g. {missing[:3]}')
+        have = {o.id for o in self.obs}; cur_sha = {f.name: f.sha for f in self.fns.values()}
+        missing = [k for k in self.lock if k not in have]
+        # a locked obligation that is not regenerated is a vacuity alarm only if its function is UNCHANGED (same normalised AST): after an edit
+        # of the function, obligations may legitimately be renamed (their verdicts are then reported under the new names)
+        stale = [k for k in missing if self.lock[k].get('fn') is None or cur_sha.get(self.lock[k].get('fn')) == self.lock[k].get('fn_sha')]
+        if stale and not os.environ.get('VERIF_UPDATE_LOCK'):
+            self.errors.append(f'{len(stale)} locked obligations of unchanged functions were not regenerated, e.g. {stale[:3]}')
+        elif missing: self.notes.append(f'{len(missing)} locked obligation names were not regenerated because their functions changed (renamed obligations are reported under their new names)')
         samples = [o.sample() for o in self.obs if o.status != PROVED][:10]
         step = max(1, n // 12)
         samples += [o.sample() for o in self.obs[::step]][:14]
